@@ -20,7 +20,7 @@ ASSUMPTIONS = [
     'the number of *_value_changed notifications is not asserted (not stated); notify is only exercised',
     'evaluated at quiescence of a manager stepped by tick() from the checking thread',
 ]
-REQUIRED = ['raise_plus_generator', 'generator_raises_at_step', 'multi_value_list', 'single_value_scalar', 'success_requested',
+REQUIRED = ['base_exception_raised', 'raise_plus_generator', 'generator_raises_at_step', 'multi_value_list', 'single_value_scalar', 'success_requested',
             'failure_requested', 'notify_requested', 'success_channels_override', 'child_event_from_handler', 'two_raises_one_event']
 REQUIRED_OBLIGATIONS = ['VALUE', 'ERRORS_FLAG', 'EXCEPTION_EVENTS', 'FAILURE_EVENTS', 'SUCCESS_ONCE_IFF', 'SUCCESS_AFTER_HANDLERS',
                         'ALL_HANDLERS_RAN', 'LATER_EVENTS_RUN']
@@ -45,6 +45,9 @@ SHAPES = {
     'GX0': (True, [['raise']]),
     'GX1': (True, [['yield', 'a'], ['raise']]),
     'GX2': (True, [['yield', None], ['yield', 'b'], ['raise']]),
+    # exceptions that derive from BaseException only (GeneratorExit-like): still "a handler that raised"
+    'XB': (False, [['raise', 'base']]),
+    'GXB1': (True, [['yield', 'a'], ['raise', 'base']]),
 }
 ALLF = {'success': True, 'failure': True, 'notify': True}
 
@@ -141,6 +144,8 @@ def evaluate(case, w, problems, canary, norm):
         gens = [h for h in decl if h.get('gen')]
         if gens or len(shapes) > 1:
             nontrivial = True
+        if any(h.get('shape') in ('XB', 'GXB1') for h in decl):
+            marks.add('base_exception_raised')
         if any(h.get('shape') == 'X' for h in decl) and any(h.get('gen') and not h['shape'].startswith('GX') for h in decl):
             marks.add('raise_plus_generator')
         if any((h.get('shape') or '').startswith('GX') for h in decl):
